@@ -140,6 +140,52 @@ Proof.
   cbn [negb orb]. rewrite Hc, Hcs. reflexivity.
 Qed.
 
+(* ---- X/28 and M/29 packets that keep the default designation only touch the recorded triplets ---- *)
+Definition tkey0 (o : option N) : Prop := match o with Some t => triplet_key t = 0 | None => True end.
+(* the character decoder while the stream is being read: no page parsed yet, recorded designations all default *)
+Definition cdn (d : cdec) : Prop := cd_last d = None /\ tkey0 (cd_x28 d) /\ tkey0 (cd_m29 d) /\ cd_c d = cd_c cdec0.
+
+Lemma neutral_step mag0 pn0 u t cd cur done recv : mag0 <> 0 -> cdn cd -> neutral_unit mag0 u = true ->
+  exists cd', cdn cd' /\ parse_unit (snd u) (fst u) t (mkPbuf cd cur done mag0 pn0 recv) = Ok (mkPbuf cd' cur done mag0 pn0 recv).
+Proof.
+  intros H0 (Hl & Hx & Hm & Hc) Hb. destruct u as [id i]. cbn [fst snd]. rewrite parse_unit_addr. unfold neutral_unit in Hb.
+  destruct (unit_addr (id, i)) as [[[mag pkt] p]|]; [|discriminate].
+  repeat (apply andb_true_iff in Hb; destruct Hb as [Hb ?]).
+  match goal with H : negb (Nat.ltb (length p) 1) = true |- _ => apply negb_true_iff in H; rename H into L1 end.
+  match goal with H : match ham84_dec _ with _ => _ end = true |- _ => rename H into Hd end.
+  match goal with H : (_ || _) = true |- _ => rename H into Hk end.
+  apply N.eqb_eq in Hb. subst mag.
+  destruct (ham84_dec (nth 0 p 0)) as [dc|] eqn:D; [|discriminate].
+  repeat (apply andb_true_iff in Hd; destruct Hd as [Hd ?]).
+  match goal with H : (triplet_key _ =? 0) = true |- _ => apply N.eqb_eq in H; rename H into Hkey end.
+  match goal with H : negb (Nat.ltb (length (tl p)) 3) = true |- _ => apply negb_true_iff in H; rename H into L3 end.
+  match goal with H : negb ((pkt =? 28) && _) = true |- _ => apply negb_true_iff in H; rename H into Hfmt end.
+  assert (Hdc : negb (dc =? 0) && negb (dc =? 4) = false) by (destruct (dc =? 0), (dc =? 4); cbn in Hd |- *; congruence).
+  assert (P : forall b, parse_2829 (tl p) pkt dc b =
+              (do d <- (if pkt =? 28 then set_x28 (pb_cd b) (triplet_of (tl p)) else set_m29 (pb_cd b) (triplet_of (tl p))); Ok (with_cd b d))).
+  { intros b. unfold parse_2829. rewrite Hdc, L3. unfold triplet_of in *. rewrite !nth_byte_at. rewrite Hfmt. reflexivity. }
+  unfold parse_packet. cbn [pb_recv pb_mag].
+  assert (Hp0 : (pkt =? 0) = false) by (apply orb_true_iff in Hk; destruct Hk as [E|E]; apply N.eqb_eq in E; subst; reflexivity).
+  assert (Hp25 : (pkt <=? 25) = false) by (apply orb_true_iff in Hk; destruct Hk as [E|E]; apply N.eqb_eq in E; subst; reflexivity).
+  assert (Hp26 : (pkt =? 26) = false) by (apply orb_true_iff in Hk; destruct Hk as [E|E]; apply N.eqb_eq in E; subst; reflexivity).
+  rewrite Hp0, Hp25, Hp26, N.eqb_refl, !andb_false_r, L1. rewrite nth_byte_at, ham84_is_spec, D. cbn [andb].
+  (* the two setters, with no page parsed yet *)
+  assert (SX : exists cd', cdn cd' /\ set_x28 cd (triplet_of (tl p)) = Ok cd').
+  { unfold set_x28. destruct (match cd_x28 cd with Some t0 => negb (t0 =? triplet_of (tl p)) | None => true end).
+    - unfold update_charset. rewrite Hl. eexists. split; [|reflexivity]. repeat split; cbn [cd_last cd_x28 cd_m29 cd_c]; assumption.
+    - exists cd. split; [repeat split; assumption | reflexivity]. }
+  assert (SM : exists cd', cdn cd' /\ set_m29 cd (triplet_of (tl p)) = Ok cd').
+  { unfold set_m29. destruct (match cd_m29 cd with Some t0 => negb (t0 =? triplet_of (tl p)) | None => true end).
+    - unfold update_charset. rewrite Hl. eexists. split; [|reflexivity]. repeat split; cbn [cd_last cd_x28 cd_m29 cd_c]; assumption.
+    - exists cd. split; [repeat split; assumption | reflexivity]. }
+  destruct SX as (cx & Hcx & Ex). destruct SM as (cm & Hcm & Em).
+  apply orb_true_iff in Hk. destruct Hk as [E|E]; apply N.eqb_eq in E; subst pkt; cbn [N.eqb Pos.eqb andb].
+  - destruct recv; cbn [andb].
+    + rewrite P. cbn [pb_cd N.eqb Pos.eqb]. rewrite Ex. cbn [bind]. exists cx. split; [exact Hcx | reflexivity].
+    + exists cd. split; [repeat split; assumption | reflexivity].
+  - destruct recv; cbn [andb]; rewrite P; cbn [pb_cd N.eqb Pos.eqb]; rewrite Em; cbn [bind]; exists cm; (split; [exact Hcm | reflexivity]).
+Qed.
+
 (* ---- the done list is write-only: a prefix on it commutes with every unit ---- *)
 Definition add_done (d : list tpage) (b : pbuf) : pbuf :=
   mkPbuf (pb_cd b) (pb_cur b) (d ++ pb_done b) (pb_mag b) (pb_page b) (pb_recv b).
